@@ -38,6 +38,11 @@ var httpPaths = [][]string{
 	{"kapacitor", "v1", "debug", "vars"},
 	{"kapacitor", "v1", "u"},
 	{},
+	{"kapacitor", "v1", "s", "a"},
+	{"kapacitor", "v1", "s", "a", ""},
+	{"kapacitor", "v1", "s", ""},
+	{"kapacitor", "v1", "s"},
+	{"kapacitor", "v1", "s", "a", "..", "b"},
 }
 var httpCreds = []string{"none", "basic_ok", "basic_badpw", "basic_nouser", "basic_emptyuser", "basic_admin",
 	"query_ok", "query_badpw", "query_nopw", "badbasic_query_ok",
@@ -46,12 +51,12 @@ var httpCreds = []string{"none", "basic_ok", "basic_badpw", "basic_nouser", "bas
 var httpWriteDbs = [][]string{{"d"}, {"e"}, {"d", "/", "e"}}
 var writePathIdx = []int{6, 7, 11} // the paths of httpPaths whose (rewritten) POST route is the write route
 var testMethods = []string{"GET", "POST", "PATCH", "PUT", "DELETE", "HEAD"}
-var testPatterns = []string{"/t", "/t/x"}
+var testPatterns = []string{"/t", "/t/x", "/s/"} // "/s/" is a subtree pattern
 
 // grant paths of the HTTP universe (MCHttpGrant); the last one is "the resource of
 // database d" and is spelled by the real auth.DatabaseResource.
 func httpGrantPaths() []string {
-	return []string{"/", "/api", "/api/t", "/api/t/x", "/api/write", "/api/preview", "/database", auth.DatabaseResource("d")}
+	return []string{"/", "/api", "/api/t", "/api/t/x", "/api/write", "/api/preview", "/api/s", "/database", auth.DatabaseResource("d")}
 }
 
 type httpReq struct {
@@ -351,7 +356,7 @@ func RunHTTP(r *rt.Run) error {
 		m.TraceFiles = append(m.TraceFiles, t.Path())
 	}
 	m.Traces = lines
-	m.Rule = fmt.Sprintf("real httpd.Handler (NewHandler + fake AuthService/PointsWriter + harness routes /t, /t/x): every request of %d methods x %d paths (canonical, '..', '.', duplicate and trailing slash, preview, write with and without base path, ping, debug/vars, unknown, root) x %d kinds of credentials (missing, basic, query, bearer JWT, subscription token; valid and invalid) plus database names on the write routes, for every grant table over %d resources with at most %d carriers (auth on) and the empty table for pprof-bypass and auth-off; distinct by construction; non-trivial = table with at least one grant",
+	m.Rule = fmt.Sprintf("real httpd.Handler (NewHandler + fake AuthService/PointsWriter + harness routes /t, /t/x and the subtree /s/): every request of %d methods x %d paths (canonical, '..', '.', duplicate and trailing slash, preview, write with and without base path, ping, debug/vars, unknown, root) x %d kinds of credentials (missing, basic, query, bearer JWT, subscription token; valid and invalid) plus database names on the write routes, for every grant table over %d resources with at most %d carriers (auth on) and the empty table for pprof-bypass and auth-off; distinct by construction; non-trivial = table with at least one grant",
 		len(httpMethods), len(httpPaths), len(httpCreds), np, maxGranted)
 	m.Extra = map[string]any{"http_tables": lines, "http_requests_per_table": len(reqs), "http_trace_parts": parts}
 	return rt.WriteMeta(r.OutDir, m)
